@@ -519,23 +519,23 @@ def check_variant(t, spec, variant, f, names, part, calls=None):
     """Signature + metadata comparison, then the call shapes (calls=None: all of them)."""
     shape = variant_shape(variant)
     base_case = {'part': part, 'spec': spec, 'variant': variant}
-    tags = ['api=' + variant['api']]
-    if variant.get('expected'):
-        tags.append('form=' + variant['expected']['form'])
     inj = variant.get('injected')
     if inj:
         shape = shape.replace('injected', 'injected(%s)' % param_class(names, inj))
-    if any(p in names['defaults'] for p in names['pos']):
-        tags.append('f_has_positional_defaults')
+    ap = Applied(spec, variant, f, names)
+    # violations are grouped by signature and tag set: the only tag marks the input class of the defect the design
+    # phase found (a required argument added to a function whose positional arguments have defaults), so that a
+    # `where=` clause can narrow a finding to it
+    tags = ['required_arg_after_positional_defaults'] if ap.unplaceable() else []
 
     def bad(what, expected, observed, call=None):
         case = dict(base_case)
         if call is not None:
             case['call'] = {'npos': call[0], 'kw': list(call[1])}
         # workers send the tally through a pipe: keep only plain data (objects -> repr)
-        t.bad('C13|fn:wraps|%s|%s' % (shape, what), case, core.jsonable(expected), core.jsonable(observed), tags=tags)
+        t.bad('C13|fn:wraps|%s|%s' % (shape, what), case, core.jsonable(expected), core.jsonable(observed),
+              detail={'source': names['src'], 'api': variant['api']}, tags=tags)
 
-    ap = Applied(spec, variant, f, names)
     t.count(nontrivial=ap.nontrivial_sig, sample=base_case)
     t.add('ways_of_wrapping:' + variant_shape(variant))
     if ap.error is not None:
